@@ -378,20 +378,22 @@ Print Assumptions C02_src_notfield.
    In the universe above an enum member is never a str / an int.  Fields/EnumMixin.v is the universe in which the
    mix-in is visible (isinstance, ==, hash, lookup by name), with the code-shaped model mx_set of Enum.__set__, the
    documented rule mx_doc (accepted: a declared member OBJECT, or a plain str naming a declared member; stored: the
-   member) and the domain mx_safe (free of the == confusion and of the name confusion).  For EVERY class, mix-in,
-   declared subset of its members and candidate in that domain the code decides as documented and every rejection is
-   a TypeError/ValueError; outside it each confusion is refuted by a constructed witness (listed findings
-   C02-mixin-...).  Gen/EnumMixinSrc.v is re-generated from typedpy/fields/enum.py on every run
-   (harness/genmods/py2v_enum_mixin.py): what Enum.__set__ does NOW over that universe is mx_set. *)
+   member).  For EVERY class, mix-in, declared subset of its members and candidate the code decides as documented and
+   every rejection is a TypeError/ValueError.  (Until Enum._validate was repaired -- membership of a member by identity,
+   a str looked up among the declared names only when it is not itself a member -- this held only on the domain free
+   of the == confusion and of the name confusion, findings C02-mixin-eq-confusion / C02-mixin-name-confusion; the
+   three former refutation witnesses are now instances decided as documented.)  Gen/EnumMixinSrc.v is re-generated
+   from typedpy/fields/enum.py on every run (harness/genmods/py2v_enum_mixin.py): what Enum.__set__ does NOW over that
+   universe is mx_set, so a return of the == / hash membership test stops C02_src_enum_mixin from compiling. *)
 From TP Require Import Fields.EnumMixin Fields.EnumMixinProofs Gen.EnumMixinSrc Fields.EnumMixinSrcProofs.
 
 Theorem C02_enum_mixin_agree : forall E decl x,
-    is_cand x = true -> decl_in_class E decl = true -> mx_safe E decl x = true ->
+    is_cand x = true -> decl_in_class E decl = true ->
     mx_agree (mx_set E decl x) (mx_doc E decl x) = true.
-Proof. exact mx_agree_safe. Qed.
+Proof. exact mx_agree_doc. Qed.
 
 Theorem C02_enum_mixin_error_class : forall E decl x e,
-    is_cand x = true -> decl_in_class E decl = true -> mx_safe E decl x = true ->
+    is_cand x = true -> decl_in_class E decl = true ->
     mx_set E decl x = Raise e -> is_te_ve e = true.
 Proof. exact mx_error_class. Qed.
 
@@ -399,39 +401,43 @@ Theorem C02_src_enum_mixin : forall re E decl x,
     is_cand x = true -> Enum__set_mx re (enum_self E decl) x = mx_set E decl x.
 Proof. exact generated_enum_set_mx. Qed.
 
-Theorem C02_enum_mixin_refuted_value_keyerror :
-  mx_set Tone (ec_members Tone) (XPlain (PStr (s2p "low"))) = Raise KeyError /\
+(* the raw value of a member ('low' == Tone.LOW) is rejected, although == finds it among the members *)
+Theorem C02_enum_mixin_value_string_rejected :
+  x_in_members Tone (XPlain (PStr (s2p "low"))) (ec_members Tone) = true /\
+  mx_set Tone (ec_members Tone) (XPlain (PStr (s2p "low"))) = Raise ValueError /\
   mx_doc Tone (ec_members Tone) (XPlain (PStr (s2p "low"))) = None.
-Proof. exact mx_refuted_value_keyerror. Qed.
+Proof. exact mx_value_string_rejected. Qed.
 
-Theorem C02_enum_mixin_refuted_undeclared_member :
+(* an undeclared member whose value is the name of a declared member is rejected *)
+Theorem C02_enum_mixin_undeclared_member_rejected :
   let decl := [(s2p "LOW", PStr (s2p "low")); (s2p "MID", PStr (s2p "mid"))] in
   let high := XMem (s2p "Tone") MxStr (s2p "HIGH") (PStr (s2p "LOW")) in
-  mx_set Tone decl high = Ok high /\ mx_doc Tone decl high = None.
-Proof. exact mx_refuted_undeclared_member. Qed.
+  x_in_names high (decl_names decl) = true /\
+  mx_set Tone decl high = Raise ValueError /\ mx_doc Tone decl high = None.
+Proof. exact mx_undeclared_member_rejected. Qed.
 
-Theorem C02_enum_mixin_refuted_raw_int :
-  mx_set Level (ec_members Level) (XPlain (PNum (NInt 1))) = Ok (XPlain (PNum (NInt 1))) /\
+(* the raw int of a member of an int mix-in class (1 == Level.A) is rejected *)
+Theorem C02_enum_mixin_raw_int_rejected :
+  x_in_members Level (XPlain (PNum (NInt 1))) (ec_members Level) = true /\
+  mx_set Level (ec_members Level) (XPlain (PNum (NInt 1))) = Raise ValueError /\
   mx_doc Level (ec_members Level) (XPlain (PNum (NInt 1))) = None.
-Proof. exact mx_refuted_raw_int. Qed.
+Proof. exact mx_raw_int_rejected. Qed.
 
 Print Assumptions C02_enum_mixin_agree.
 Print Assumptions C02_enum_mixin_error_class.
 Print Assumptions C02_src_enum_mixin.
-Print Assumptions C02_enum_mixin_refuted_value_keyerror.
-Print Assumptions C02_enum_mixin_refuted_undeclared_member.
-Print Assumptions C02_enum_mixin_refuted_raw_int.
+Print Assumptions C02_enum_mixin_value_string_rejected.
+Print Assumptions C02_enum_mixin_undeclared_member_rejected.
+Print Assumptions C02_enum_mixin_raw_int_rejected.
 
 Example C02_enum_mixin_nonvacuous :
   let decl := [(s2p "LOW", PStr (s2p "low")); (s2p "MID", PStr (s2p "mid"))] in
-  mx_safe Tone decl (XMem (s2p "Tone") MxStr (s2p "MID") (PStr (s2p "mid"))) = true /\
+  decl_in_class Tone decl = true /\
   mx_set Tone decl (XMem (s2p "Tone") MxStr (s2p "MID") (PStr (s2p "mid")))
     = Ok (XMem (s2p "Tone") MxStr (s2p "MID") (PStr (s2p "mid"))) /\
-  mx_safe Tone decl (XPlain (PStr (s2p "MID"))) = true /\
   mx_set Tone decl (XPlain (PStr (s2p "MID"))) = Ok (XMem (s2p "Tone") MxStr (s2p "MID") (PStr (s2p "mid"))) /\
-  mx_safe Tone decl (XPlain (PStr (s2p "HIGH"))) = true /\
   mx_set Tone decl (XPlain (PStr (s2p "HIGH"))) = Raise ValueError.
-Proof. exact mx_safe_nonvacuous. Qed.
+Proof. exact mx_nonvacuous. Qed.
 
 (* ---- fields over ARBITRARY classes: Field[Foo], Array[Foo], Map[String, Foo], AnyOf[Integer, Foo] --------------------
    FieldMeta.__getitem__ caches the implicit wrapper of a class in a process-wide registry, so what a declaration
